@@ -229,14 +229,17 @@ def c18_scenarios(tier, seed):
         for cnum in cl:
             # consecutive bursts large enough that every worker signs several multi-request batches one after another
             out.append(scen(i, num_workers=w, probe_socks=max(24, 8 * w), probe_rounds=3, spread_probe=True, load={"clients": cnum, "requests": 25 if tier == "quick" else 60},
-                            batch_size=[64, 4, 1][i % 3], client_stats=(i % 4 == 3)))
+                            batch_size=[64, 4, 1][i % 3], client_stats=(i % 4 == 3),
+                            # the workers' other duties run alongside: every second configuration has the TCP health-check
+                            # listeners (one per worker, sharing one port like the UDP sockets) and connections arriving on them
+                            health_check=(True if i % 2 == 1 else None), hc_conns=(6 if i % 2 == 1 else None)))
             i += 1
     # stalled bursts: full batches wait for the workers (all of one protocol, and mixed), several in a row
     for k, (w, b) in enumerate([(1, 64), (2, 64), (1, 7)] if tier == "quick" else [(1, 64), (2, 64), (4, 64), (1, 7), (1, 33), (16, 64)]):
         out.append(scen(100 + k, num_workers=w, batch_size=b, probe_socks=8, probe_rounds=1,
                         # (at most 72 datagrams per burst: more could overflow one socket's default receive buffer)
                         stalled_bursts=[[72, "G"], [72, "I"], [72, "mix"], [40, "I"], [66, "G"]], client_stats=(k % 2 == 1)))
-    return out
+    return [{k: v for k, v in s.items() if v is not None} for s in out]
 
 
 def binary_stats_stage(c):
@@ -255,7 +258,7 @@ def binary_stats_stage(c):
 
 def binary_reply_stage(c):
     scs = [scen(0, num_workers=4, batch_size=64, probe_socks=60, probe_rounds=6, load={"clients": 32, "requests": 40}),
-           scen(1, num_workers=2, batch_size=3, probe_socks=60, probe_rounds=6, load={"clients": 16, "requests": 40}),
+           scen(1, num_workers=2, batch_size=3, probe_socks=60, probe_rounds=6, load={"clients": 16, "requests": 40}, source="env"),
            scen(2, num_workers=2, batch_size=16, fault_percentage=50, probe_socks=40, probe_rounds=4)]
     run_scenarios(c, scs, "binary")
 
